@@ -410,6 +410,11 @@ func opPkt(st *state, args []string) []string {
 			res += " # " + strings.ReplaceAll(err.Error(), "\n", " | ")
 		}
 		lines = append([]string{res}, pe.cap.resolve(pe.cap.lines)...)
+		// the payloads of earlier datagrams belong to the receiver (it recycles its buffers for the datagrams that follow):
+		// nothing that processes a later datagram may write into them
+		if n := inputsChanged(d); n > 0 {
+			lines = append(lines, fmt.Sprintf("input-changed %d", n))
+		}
 		if pe.cap.full {
 			if n := pe.cap.stale(); n > 0 {
 				lines = append(lines, fmt.Sprintf("held-changed %d", n))
@@ -575,4 +580,24 @@ func opFailAt(st *state, args []string) []string {
 	}
 	pe.cap.failAt = k
 	return []string{"res ok"}
+}
+
+type keptInput struct{ buf, snap []byte }
+
+var keptInputs []keptInput
+
+// inputsChanged: how many of the last 16 payloads differ from the copy taken when they were handed in; then remembers cur
+func inputsChanged(cur []byte) int {
+	n := 0
+	for i := range keptInputs {
+		if !bytes.Equal(keptInputs[i].buf, keptInputs[i].snap) {
+			n++
+			keptInputs[i].snap = append([]byte(nil), keptInputs[i].buf...)
+		}
+	}
+	keptInputs = append(keptInputs, keptInput{cur, append([]byte(nil), cur...)})
+	if len(keptInputs) > 16 {
+		keptInputs = keptInputs[len(keptInputs)-16:]
+	}
+	return n
 }
